@@ -178,6 +178,7 @@ def file_path(ctx):
 
 def check_one(src):
     st = smt.Stats()
+    smt.STATS = st  # path-feasibility queries of the machines are charged to this job too
     out = {"src": src, "sigs": [], "pairs": 0, "stats": None}
 
     def conv(**kw):
